@@ -37,6 +37,7 @@ def run(ctx):
     ctx.do(rule_encoders)
     ctx.do(rule_defaulted)
     ctx.do(rule_order_and_precision)
+    ctx.do(rule_inner_written_by_constructor)
     # what is serialised parses back to an equal object only if construction already truncated every timestamp to what
     # the serialiser will write: the truncation pipeline (C15) is a necessary condition of the round trip
     from . import C15
@@ -502,6 +503,74 @@ def rule_defaulted(ctx):
     run.check(okl, R, key(rel, fi.qualname, "loop-over-defined"),
               "bookkeeping loop does not range over the defined properties", file=rel, line=apps[0].lineno, function=fi.qualname,
               expected="for name, prop in defined_properties.items()", found=norm(loop.iter) if loop is not None else None)
+
+
+# who may write the property storage of an object (frozen; one reason each)
+INNER_WRITERS_OK = {
+    ("stix2.base::_STIXBase.__init__", None):
+        "the constructor: fills the storage in specification order and runs every check on what it stored",
+    ("stix2.v21.base::_Observable.__init__", "id"):
+        "overwrites IN PLACE the defaulted id (always present: IDProperty has a default) with the deterministic one; adds no key",
+}
+_INNER_MUTATORS = ("update", "setdefault", "pop", "popitem", "clear", "__setitem__", "__delitem__", "move_to_end")
+
+
+def rule_inner_written_by_constructor(ctx, rule_id="C01.spec-order"):
+    """The property storage (`_inner`) of an object is written by _STIXBase.__init__ only.  A key inserted afterwards (by a
+    subclass constructor, a decorator-built class, a helper) lands at the END of the storage whatever the specification order,
+    was not seen by the constructor's checks (constraints, id generation, custom-content detection), and the object parsed back
+    from the serialisation lists it elsewhere: re-serialisation differs byte for byte, deterministic ids differ.  A
+    who-may-write rule over every `<x>._inner[...] = v`, `del <x>._inner[...]`, `<x>._inner[...][...] = v` and mutating method
+    call on `<x>._inner` / a value read from it."""
+    run = ctx.run
+    prog = ctx.prog
+    n = 0
+
+    def inner_root(e):
+        """(key text or None) if e is <x>._inner or a subscript chain below it, else False"""
+        k = None
+        while isinstance(e, ast.Subscript):
+            k = e.slice
+            e = e.value
+        if isinstance(e, ast.Attribute) and e.attr == "_inner":
+            return (k.value if isinstance(k, ast.Constant) else (norm(k) if k is not None else None),)
+        return False
+
+    for fi in sorted(prog.functions.values(), key=lambda f: f.id):
+        if fi.module.relpath.startswith("stix2/test"):
+            continue
+        for x in body_walk(fi.node):
+            hits = []
+            if isinstance(x, (ast.Assign, ast.AugAssign, ast.AnnAssign, ast.Delete)):
+                tg = x.targets if isinstance(x, (ast.Assign, ast.Delete)) else [x.target]
+                for t in tg:
+                    if isinstance(t, ast.Subscript):
+                        r = inner_root(t)
+                        if r:
+                            hits.append((r[0], x))
+                    # <x>._inner = ... outside the constructor
+                    if isinstance(t, ast.Attribute) and t.attr == "_inner" and fi.name not in ("__init__", "__new__"):
+                        hits.append((None, x))
+            if isinstance(x, ast.Call) and isinstance(x.func, ast.Attribute) and x.func.attr in _INNER_MUTATORS:
+                r = inner_root(x.func.value)
+                if r:
+                    hits.append((r[0], x))
+            for k, node in hits:
+                n += 1
+                why = INNER_WRITERS_OK.get((fi.id, None)) or INNER_WRITERS_OK.get((fi.id, k))
+                c = key(fi.module.relpath, fi.qualname, "writes-property-storage:%s" % (k if k is not None else "*"))
+                if why:
+                    run.ok(rule_id, c, why)
+                    continue
+                run.violation(rule_id, c, "the property storage of an object is modified outside _STIXBase.__init__: a key inserted "
+                              "after construction is appended whatever the specification order and was not seen by the constructor's "
+                              "checks; the object parsed back from the serialisation lists it elsewhere (re-serialisation differs "
+                              "byte for byte) and a deterministic id computed earlier does not cover it", file=fi.module.relpath,
+                              line=node.lineno, function=fi.qualname,
+                              expected="hand the value to the base constructor (kwargs) instead of writing _inner afterwards",
+                              found=short(node, 120))
+    if n < 1:
+        raise AnalysisError("no write to a property storage found at all (anchors lost: _Observable.__init__ id)")
 
 
 def _parents(n):
